@@ -27,7 +27,7 @@ from .. import native
 
 PID = 'C18'
 RULE = ('chunk cases = all (n, c) with 1 <= n <= 200, 1 <= c <= 64; trajectory cases = (frames 1-4, sites 1-120 per type, 1-8 molecules incl. all-one-molecule and '
-        'all-singletons, orthorhombic boxes with coordinates wrapped into the box, self and non-self, Domain dk 0.05-0.3 x 16-64 bins) x nthreads in '
+        'all-singletons, orthorhombic boxes (edges 6-20, unit box, edges of order one, one short edge, 20-50) with coordinates wrapped into the box, self and non-self, Domain dk 0.05-0.3 x 16-64 bins) x nthreads in '
         '{1..16, 17, 40, n-1, n, n+1} x OpenMP team size in {1, 2, 4, 16}; a share of the cases runs on the ASan+UBSan build in a subprocess; '
         'non-trivial = trajectory with >= 1 intramolecular pair compared under >= 4 distinct (nthreads, team) schedules; distinct = distinct case digests')
 ASSUMPTIONS = ['build shim np.int -> np.int64, np.int_t -> np.int64_t on a scratch copy (the shipped .pyx does not cythonize against the pinned numpy)',
@@ -110,7 +110,19 @@ def gen_traj(rng, selfo):
     N1 = int(rng.choice([1, 2, 3, 5, 8, 13, 16, 17, 31, 32, 33, 64, 100, 120, int(rng.integers(1, 121))]))
     N2 = N1 if selfo else int(rng.integers(1, 121))
     nm = int(rng.choice([1, 2, 3, 8, 10 ** 6]))          # 10**6 -> all singletons
-    box = rng.uniform(6, 20, size=(1, 3)).repeat(F, axis=0) * rng.uniform(0.95, 1.05, size=(F, 1))
+    mode = str(rng.choice(['std', 'std', 'unit', 'small', 'slab', 'large']))
+    if mode == 'unit':
+        base = np.ones((1, 3))                                   # reduced / fractional coordinates
+    elif mode == 'small':
+        base = rng.uniform(0.7, 2.5, size=(1, 3))                # box edges of order one length unit
+    elif mode == 'slab':
+        base = rng.uniform(6, 20, size=(1, 3))
+        base[0, int(rng.integers(0, 3))] = float(rng.uniform(0.8, 3.0))   # one short edge
+    elif mode == 'large':
+        base = rng.uniform(20, 50, size=(1, 3))
+    else:
+        base = rng.uniform(6, 20, size=(1, 3))
+    box = base.repeat(F, axis=0) * rng.uniform(0.95, 1.05, size=(F, 1))
 
     def pos(N):
         while True:
